@@ -291,6 +291,12 @@ func run(c Case) kit.Result {
 	for i, op := range c.Ops {
 		pre := m
 		opErr := w.Exec(p, op)
+		// was the context already cancelled before the pinner completed its first access to
+		// its own datastore in this call?
+		earlyCancel := op.Cancel == "pre"
+		if fired, dsBefore := w.Hook.CancelPoint(); fired && dsBefore == 0 {
+			earlyCancel = true
+		}
 		next := pre
 		touchedPinned := false
 		for _, tg := range op.Targets() {
@@ -309,6 +315,14 @@ func run(c Case) kit.Result {
 			if isRecPin(op) && hasDir(pre, op.Node) && (op.Missing >= 0 || op.Cancel == "bs") {
 				// the fetch of a recursive pin over an existing direct pin failed
 				classes["err:recursive-over-direct+fetch-fault"] = true
+			}
+			if op.IsRepin(pre) && earlyCancel {
+				// the re-pin failed on a context that was dead before anything was read
+				if isRecPin(op) && hasRec(pre, op.Node) {
+					classes["err:recursive-repin+cancelled-before-first-ds-access"] = true
+				} else {
+					classes["err:other-repin+cancelled-before-first-ds-access"] = true
+				}
 			}
 		} else {
 			var aerr error
@@ -350,7 +364,7 @@ func run(c Case) kit.Result {
 		if x != nil {
 			what := fmt.Sprintf("after op %d %v (returned %v): %v", i, op, opErr, x)
 			switch {
-			case opErr != nil && op.IsRepin(pre) && inRepinWindow(pre, op):
+			case opErr != nil && op.IsRepin(pre) && inRepinWindow(pre, op, earlyCancel):
 				// F11 signature: the failing op is a re-pin of an already pinned CID, the fault
 				// can strike between "old pin removed" and "new pin stored" (inRepinWindow), and
 				// the only discrepancy is that this CID lost its pin.
@@ -422,18 +436,28 @@ func isRecPin(op pinkit.Op) bool {
 // inRepinWindow narrows the F11 exclusion to the failures that finding explains. The pinner
 // replaces a pin by "remove the old record, then store the new one"; F11 is that an error in
 // between leaves the CID unpinned. The window is open
-//   - for a recursive pin of a CID that already is a recursive root: from the start of the
-//     call, i.e. also during the graph fetch (missing block, cancellation at a blockstore
-//     access) – the documented F11 case;
+//   - for a recursive pin of a CID that already is a recursive root: once the pinner has read
+//     its datastore with a live context, i.e. also during the graph fetch (missing block,
+//     cancellation at a blockstore access) – the documented F11 case;
 //   - for every other re-pin (direct over direct, recursive over direct): only while the
 //     pinner rewrites its own datastore, which in this harness can only be interrupted by a
 //     cancellation at a pinner-datastore access (Cancel "ds").
 //
+// The window is never open when the context was cancelled before the pinner completed its
+// first access to its own datastore in this call (earlyCancel: cancelled before the call, at a
+// blockstore access of Pin's initial dserv.Add, or at the very first datastore access): the
+// old record is removed only after a lookup of the existing pins, that lookup honours the
+// context, so such a call fails before anything is removed. F11 explains a lost pin only if
+// the failure struck after the point where the old pin is removed.
+//
 // A re-pin that loses the existing pin on any other failure (a recursive pin of a directly
-// pinned CID whose fetch fails, a context cancelled before the call, ...) is not F11: it is
-// reported as a violation of "an operation that returns an error leaves all pin queries
-// unchanged".
-func inRepinWindow(pre pinkit.Model, op pinkit.Op) bool {
+// pinned CID whose fetch fails, a context that was already dead when the call started, ...)
+// is not F11: it is reported as a violation of "an operation that returns an error leaves
+// all pin queries unchanged".
+func inRepinWindow(pre pinkit.Model, op pinkit.Op, earlyCancel bool) bool {
+	if earlyCancel {
+		return false
+	}
 	if isRecPin(op) && hasRec(pre, op.Node) {
 		return true
 	}
